@@ -498,3 +498,102 @@ func VH05e_deep_header() {
 	verif.Reach("deep-header-routed")
 	sock.Close()
 }
+
+// VH05f_many_contexts: M (5) contexts of one REP / RESPONDENT socket, each
+// waiting in Recv; M requests arrive from two connections with different
+// routing headers; one context (any position, or none) is closed before it
+// replies; every other context replies. Each reply goes, once, to the
+// connection its context's request came from, with exactly that request's
+// header; the closed context's request gets no reply; nothing is written
+// anywhere else.
+func VH05f_many_contexts() {
+	M := verif.Param("M", 5)
+	proto := cooked[verif.Choice("proto", 2)]
+	lab := "C05/" + proto + "/many-contexts"
+	sock := vp.New(proto)
+	side := vt.Listen(sock, "a")
+	pipes := []*vt.Pipe{side.Peer("p0"), side.Peer("p1")}
+	type cx struct {
+		c   mangos.Context
+		g   *verif.G
+		m   *mangos.Message
+		err error
+	}
+	var cs []*cx
+	for i := 0; i < M; i++ {
+		c, err := sock.OpenContext()
+		verif.Assert(err == nil, lab+"/open-context")
+		if err != nil {
+			return
+		}
+		x := &cx{c: c}
+		cs = append(cs, x)
+		x.g = verif.Go("recv", func() { x.m, x.err = x.c.RecvMsg() })
+	}
+	verif.Quiesce()
+	var reqs []*reqrec
+	for i := 0; i < M; i++ {
+		p := pipes[i%2]
+		hdr := []byte{0, 0, byte(i), 7, 0x80, 0, byte(i), 1}
+		r := &reqrec{tag: byte(10 + i), pipe: p, hdr: hdr}
+		reqs = append(reqs, r)
+		p.Deliver(append(append([]byte{}, hdr...), r.tag))
+		verif.Quiesce()
+	}
+	closeAt := verif.Choice("close", M+1) - 1
+	owner := map[byte]*cx{}
+	for _, x := range cs {
+		verif.Assert(x.g.Done() && x.err == nil && len(x.m.Body) == 1, lab+"/waiting-context-did-not-get-a-request")
+		if !x.g.Done() || x.err != nil || len(x.m.Body) != 1 {
+			return
+		}
+		r := find(reqs, x.m.Body[0])
+		verif.Assert(r != nil && !r.got, lab+"/request-delivered-twice-or-invented")
+		if r == nil {
+			return
+		}
+		r.got = true
+		owner[r.tag] = x
+	}
+	if closeAt >= 0 {
+		verif.Assert(cs[closeAt].c.Close() == nil, lab+"/context-close")
+	}
+	// replies in reverse order of the contexts
+	for i := M - 1; i >= 0; i-- {
+		x := cs[i]
+		m := mangos.NewMessage(2)
+		m.Body = append(m.Body, 'r', x.m.Body[0])
+		err := x.c.SendMsg(m)
+		if i == closeAt {
+			verif.Assert(err != nil, lab+"/reply-on-a-closed-context-accepted")
+		} else {
+			verif.Assert(err == nil, lab+"/reply-send")
+		}
+		verif.Quiesce()
+	}
+	for _, p := range pipes {
+		for _, rec := range p.Sent {
+			verif.Assert(len(rec.B) == 2 && rec.B[0] == 'r', lab+"/reply-body-is-not-what-the-application-sent")
+			if len(rec.B) != 2 {
+				continue
+			}
+			r := find(reqs, rec.B[1])
+			verif.Assert(r != nil && r.pipe == p && verif.BytesEq(rec.H, r.hdr), lab+"/reply-not-routed-with-its-own-requests-header-to-its-own-connection")
+			if r != nil {
+				verif.Assert(closeAt < 0 || owner[r.tag] != cs[closeAt], lab+"/closed-context-replied")
+				r.tag = 0 // answered: a second reply for it would not be found
+			}
+		}
+	}
+	n := 0
+	for _, p := range pipes {
+		n += len(p.Sent)
+	}
+	want := M
+	if closeAt >= 0 {
+		want--
+	}
+	verif.Assert(n == want, lab+"/number-of-replies-on-the-wire")
+	verif.Reach("many-contexts-replied")
+	sock.Close()
+}
